@@ -174,6 +174,21 @@ Theorem C10_solvent : forall epoch ops t, t <> LOCKED ->
 Proof. exact balance_covers. Qed.
 Print Assumptions C10_solvent.
 
+(** ... and therefore a permitted claim never aborts on a reachable state (not paused; caller whitelisted when
+    claiming for somebody else): the global update never underflows, the balances cover every payment —
+    "the collector always holds enough to pay". *)
+Theorem C10_claim_never_aborts : forall epoch ops c (orig : option Z) (boosted : bool),
+  let f := fst (grun (init_fc epoch, g0) ops) in
+  fc_paused f = false ->
+  (match orig with Some u => (if boosted then mem u (fc_allow f) else mem c (fc_wl f)) = true | None => True end) ->
+  exists f' outs det, ep_claim f c orig boosted = Ok (f', outs, det).
+Proof.
+  intros epoch ops c orig boosted f Hp Hperm.
+  destruct (grun_inv ops _ _ (init_finv epoch) (init_dinv epoch)) as (Hi & D).
+  apply (ep_claim_never_aborts _ _ c orig boosted Hi D Hp Hperm).
+Qed.
+Print Assumptions C10_claim_never_aborts.
+
 (** a claim pays from the balance exactly what it reports for the fungible tokens *)
 Theorem C10_pays_what_it_reports : forall f c orig boosted f' outs det,
   FWf f -> ep_claim f c orig boosted = Ok (f', outs, det) ->
